@@ -77,3 +77,56 @@ Theorem C05_mini_not_denied_unaffected : forall q s r,
   serve s (search_nocache q s r) = serve (erase s) (search_nocache q (erase s) r).
 Proof. exact nocache_not_denied_as_twin. Qed.
 Print Assumptions C05_mini_not_denied_unaffected.
+
+(** ** enforcement with the route cache (mini router), every history
+
+    For every server, every request history and every eviction behaviour (the hit
+    oracle [rq_hit] is arbitrary, except that a hit is reported only for a key that
+    was put before): provided the twin's routing decision depends on the cache key
+    only ([key_det]: no key collision, no header-dependent answer under one key -
+    the concern of C12), every request denied by an applying filter is refused with a
+    4xx status (403 whenever the twin finds a route) and reaches no backend, and every
+    other request gets exactly the twin's outcome.  [good] spells this out. *)
+Theorem C05_mini_cached_enforced : forall s reqs,
+  key_det ideal s reqs -> hits_present ideal s [] reqs ->
+  Forall2 (fun r out =>
+             (denied ideal s r = true ->
+                400 <= fst out < 500 /\ snd out = 0 /\
+                (forall ri pi, search_nocache ideal (erase s) r = ORoute ri pi -> fst out = 403)) /\
+             (denied ideal s r = false -> out = serve (erase s) (search_nocache ideal (erase s) r)))
+          reqs (run ideal s [] reqs).
+Proof. exact run_enforced_ideal. Qed.
+Print Assumptions C05_mini_cached_enforced.
+
+(** the same from any sound cache, for any quirk record with the hit flag off *)
+Theorem C05_mini_cached_enforced_general : forall q, q_hit_skips_visited_rules q = false ->
+  forall s reqs c, key_det q s reqs -> cache_ok q s c reqs -> hits_present q s c reqs ->
+  Forall2 (good q s) reqs (run q s c reqs).
+Proof. exact run_enforced. Qed.
+Print Assumptions C05_mini_cached_enforced_general.
+
+Example C05_cached_nonvacuous :
+  key_det ideal wit_server wit_reqs /\ cache_ok ideal wit_server [] wit_reqs /\
+  hits_present ideal wit_server [] wit_reqs /\
+  run ideal wit_server [] wit_reqs = [(200, 2); (403, 0)].
+Proof. exact run_enforced_nonvacuous. Qed.
+
+(** ** refutations: the unchanged code's defects, one flag each *)
+
+(** [::ffff:a.b.c.d] entries: an address lying in an allowed entry and in no blocked
+    one is denied (contradicts [C05_decision_table]) *)
+Theorem C05_refuted_q_mapped_entry_dead :
+  exists f a, lies_in (f_allow f) a /\ ~ lies_in (f_block f) a /\ allow q_mapped f (Some a) = false.
+Proof. exact refuted_mapped. Qed.
+Print Assumptions C05_refuted_q_mapped_entry_dead.
+
+(** cached route: a request denied by the filter of an earlier host-matching rule is
+    dispatched (200, backend 2) on a hit; cache-less and ideal servers answer 403 *)
+Theorem C05_refuted_q_hit_skips_visited_rules :
+  exists s reqs r,
+    nth_error reqs 1 = Some r /\ denied ideal s r = true /\
+    nth_error (run q_hitskip s [] reqs) 1 = Some (200, 2) /\
+    nth_error (run_nocache q_hitskip s reqs) 1 = Some (403, 0) /\
+    nth_error (run ideal s [] reqs) 1 = Some (403, 0).
+Proof. exact refuted_hitskip. Qed.
+Print Assumptions C05_refuted_q_hit_skips_visited_rules.
